@@ -38,6 +38,7 @@ def run(history, opts, stop='interrupt'):
             marks.append(len(out.getvalue()))
             raise KeyboardInterrupt
 
+    run.last_output = out
     with patch.object(sys, 'stdout', out), patch('signal.signal'), patch.object(healthcheck, 'check', scripted_check), patch.object(healthcheck.time, 'sleep', scripted_sleep):
         healthcheck.loop(options)
     text = out.getvalue()
@@ -224,3 +225,137 @@ def selector_of_written_lines(tier, seed):
 @replayer('C20', 'selector-of-written-lines')
 def _replay_selector(f):
     return _selector_case(f['input']['neighbors']) is None
+
+
+# ---------------------------------------------------------------------------------------------------------------------
+# "every line it writes is a syntactically valid ExaBGP API command carrying the configured metric, communities, AS path
+# and next hop": the advertising options one at a time at and beyond the boundaries of the fields they end up in, through
+# the REAL argument parser (a refusal there is an outcome) and the real loop; every written line through the real route
+# parser, and the parsed route must say what the option said
+BASE_ARGV = ['--no-ack', '--no-ip-setup', '--command', 'scripted', '--rise', '2', '--fall', '2', '--ip', '192.0.2.1/32', '--ip', '192.0.2.2/32']
+
+
+def option_variations():
+    v = []
+    for m in ('--up-metric', '--down-metric'):
+        for x in ('0', '1', '4294967294', '4294967295', '4294967296', '-1'):
+            v.append([m, x])
+    for x in ('0', '-1', '-200', '4294967295'):
+        v.append(['--increase', x])
+    v.append(['--up-metric', '4294967295', '--increase', '0'])
+    for x in ('0', '1', '4294967295', '4294967296'):
+        v.append(['--local-preference', x])
+    for x in ('0', '1', '4294967295', '4294967296', '-1'):
+        v.append(['--path-id', x])
+    for x in ('65000:1', '65000:1 65000:2', 'no-export', '65535:65535', '4294967295'):
+        v.append(['--community', x])
+        v.append(['--disabled-community', x])
+    for x in ('1:2:3', '4294967295:0:1 1:1:1'):
+        v.append(['--large-community', x])
+    for x in ('target:65000:1', 'origin:1.2.3.4:5', 'target:65000:1 origin:65001:2', 'target:65000:4294967295'):
+        v.append(['--extended-community', x])
+    for opt in ('--as-path', '--up-as-path', '--down-as-path'):
+        for x in ('65000', '65000 65001', '4200000001', '4294967295 1'):
+            v.append([opt, x])
+    for x in ('10.0.0.1', '2001:db8::1'):
+        v.append(['--next-hop', x])
+    v.append(['--withdraw-on-down'])
+    v.append(['--debounce'])
+    v.append(['--neighbor', '10.0.0.2'])
+    v.append(['--neighbor', '10.0.0.2', '--neighbor', '2001:db8::2'])
+    return v
+
+
+ALT_IPS = [['--ip', '2001:db8::1/128', '--ip', '2001:db8::2/128'], ['--ip', '192.0.2.0/30', '--deaggregate-networks'], ['--ip', '192.0.2.0/24'], ['--ip', '2001:db8::/64', '--ip', '192.0.2.9/32']]
+
+
+def option_case(argv):
+    from exabgp.application import healthcheck
+
+    inp = {'argv': argv}
+    err = StringIO()
+    try:
+        with patch.object(sys, 'argv', ['healthcheck'] + argv), patch.object(sys, 'stderr', err):
+            options = healthcheck.parse()
+    except SystemExit:
+        return None  # refused by the argument parser with a message: nothing is ever written
+    except Exception as e:  # noqa
+        return {'what': f'the argument parser answered with {type(e).__name__}: {str(e)[:120]}', 'input': inp}
+    if options.deaggregate_networks:
+        options.ips = [ip_network(ip) for net in options.ips for ip in net]  # what main() does before loop()
+    if options.neighbors:
+        options.neighbors = [str(n) for n in options.neighbors]
+    history = (True, True, False, False, True, True)
+    opts = dict(vars(options))
+    try:
+        rounds, exit_lines = run(history, opts)
+    except ValueError as e:
+        if run.last_output.getvalue() == '':
+            return None  # refused with a message before anything was written (main() logs it and exits 1)
+        return {'what': f'loop() raised ValueError after it had written lines: {str(e)[:120]}', 'input': inp}
+    except Exception as e:  # noqa
+        return {'what': f'loop() raised {type(e).__name__}: {str(e)[:120]}', 'input': inp}
+    o = argparse.Namespace(**opts)
+    for lines in rounds + [exit_lines]:
+        for k, ln in enumerate(lines):
+            try:
+                action, route = parse_line_any(ln)
+            except Exception as e:  # noqa
+                return {'what': f'a line written is not a valid API command: {ln!r}: {type(e).__name__}: {str(e)[:120]}', 'input': inp}
+            if action != 'announce':
+                continue
+            text = route.extensive()
+            med = re.search(r' med (\d+)', ln)
+            state = None
+            if med:
+                for name in ('up', 'down', 'disabled'):
+                    if int(med.group(1)) == getattr(o, f'{name}_metric') + k * o.increase:
+                        state = name
+            if state is None:
+                return {'what': f'the metric of a line is not the configured metric of any state for address number {k}: {ln!r}', 'input': inp}
+            want = [f'med {getattr(o, state + "_metric") + k * o.increase}']
+            if o.local_preference >= 0:
+                want.append(f'local-preference {o.local_preference}')
+            if o.path_id:
+                want.append('path-information ' + '.'.join(str(b) for b in o.path_id.to_bytes(4, 'big')))
+            for w in want:
+                if w not in text:
+                    return {'what': f'the route the daemon parses from the line does not carry `{w}`: {text!r} from {ln!r}', 'input': inp}
+    return None
+
+
+def parse_line_any(line):
+    """like parse_line, with the bracketed selector of several neighbors"""
+    from exabgp.configuration.configuration import Configuration
+
+    if not _cfg:
+        _cfg.append(Configuration([], text=True))
+    m = re.match(r'^(peer \*|peer [0-9a-f.:]+|peer \[ [0-9a-f.: ,]+ \]) (announce|withdraw) (route .*)$', line)
+    if not m:
+        raise ValueError('not of the form `peer <selector> announce|withdraw route ...`')
+    routes = _cfg[0].parse_route_text(m.group(3), m.group(2))
+    if len(routes) != 1:
+        raise ValueError(f'{len(routes)} routes parsed: {_cfg[0].error}')
+    return m.group(2), routes[0]
+
+
+@bounded('C20', 'advertising-options-at-their-boundaries')
+def option_sweep(tier, seed):
+    fails, evals = [], 0
+    cases = [BASE_ARGV + v for v in option_variations()]
+    base_no_ip = BASE_ARGV[: BASE_ARGV.index('--ip')]
+    for ips in ALT_IPS:
+        cases.append(base_no_ip + ips)
+        cases.append(base_no_ip + ips + ['--up-metric', '4294967295'])
+        cases.append(base_no_ip + ips + ['--path-id', '7', '--community', '65000:1', '--as-path', '65000'])
+    for argv in cases:
+        evals += 1
+        f = option_case(argv)
+        if f:
+            fails.append(f)
+    return {'evaluations': evals, 'distinct_nontrivial': evals, 'bound': 'each advertising option alone at and beyond the boundary of the field it ends in (metrics and increase around 0 and 2^32, local preference, path id; attribute strings are values the route grammar accepts -- the helper passes them through unvalidated, control characters apart: communities, large and extended communities, the three as-path options, next hop of either family, neighbors), 4 address sets (IPv6, a deaggregated /30, a network, mixed families); through the real argument parser and the real loop over the history SSFFSS + exit; every line through the real route parser', 'rule': 'one case = one argument vector', 'samples': [{'argv': cases[0]}], 'failures': fails}
+
+
+@replayer('C20', 'advertising-options-at-their-boundaries')
+def _replay_options(f):
+    return option_case(f['input']['argv']) is None
